@@ -52,6 +52,14 @@ fn handover(chk: &Check, heavy: &std::sync::atomic::AtomicU64) {
             for pause_ms in [0u64, 30] {
                 let msgs_a = msgs.clone();
                 let fed = std::thread::spawn(move || {
+                    // thread A has used a scanner before (so any per-thread reference point of its own
+                    // lies in the past by the time the hand-over candidate is fed)
+                    let mut warm = PollingParameterNumberMessageScanner::new(Duration::ZERO);
+                    for &i in &seq[..3] {
+                        let _ = warm.feed(&msgs_a[i]);
+                    }
+                    let _ = warm.poll(Channel::new(3));
+                    std::thread::sleep(Duration::from_millis(3));
                     let mut sc = PollingParameterNumberMessageScanner::new(timeout);
                     for &i in &seq[..k] {
                         let _ = sc.feed(&msgs_a[i]);
